@@ -259,8 +259,15 @@ class Report:
         os.makedirs(os.path.join(OUT, 'evidence'), exist_ok=True)
         with open(os.path.join(OUT, 'evidence', f'{self.pid}.json'), 'w') as f:
             json.dump(ev, f, indent=1)
+        shown = 0
         for l in lines:
+            if l.startswith('VIOLATION') or l.startswith('  what'):
+                shown += 1
+                if shown > 16:
+                    continue
             print(l)
+        if shown > 16:
+            print(f'  ... {len(new_viol) - 8} further violations (see evidence file / replays)')
         code = EXIT_OK
         if self.harness_errors or self.inconclusive:
             code = EXIT_HARNESS
